@@ -932,7 +932,9 @@ static int do_explore(int P, int D, int jobs, double deadline_s, long maxexec) {
             free(serr);
             /* alternatives */
             if (r->nsteps < it->len && r->complete != ST_NONE) {
-                printf("{\"type\":\"machinery\",\"err\":\"execution ended inside its own prefix\"}\n");
+                printf("{\"type\":\"machinery\",\"err\":\"execution ended inside its own prefix\",\"status\":\"%s\",\"steps\":%d,\"sched\":[", st, r->nsteps);
+                for (int i = 0; i < it->len; i++) printf("%s%d", i ? "," : "", it->ch[i]);
+                printf("]}\n");
                 return 2;
             }
             int pc = it->pc, dc = it->dc;
